@@ -1,5 +1,6 @@
 import Proofs.Lemmas.ForkAt
 import Proofs.Lemmas.UpgradeChain
+import Proofs.Lemmas.Domain
 import Zrnt.Gen.GoFuns
 import Zrnt.Gen.Configs
 import Zrnt.Config.Constants
@@ -19,7 +20,7 @@ import Zrnt.Config.Constants
 The specification side is `forkAt` (`Zrnt.Config.Spec`): latest fork whose epoch is `≤ epoch`.
 -/
 namespace Zrnt.Proofs.C14
-open Zrnt Zrnt.Gen.GoFuns Zrnt.Config Zrnt.Proofs.ForkAt Zrnt.Proofs.Upgrade
+open Zrnt Zrnt.Gen.GoFuns Zrnt.Config Zrnt.Proofs.ForkAt Zrnt.Proofs.Upgrade Zrnt.Proofs.Domain
 
 /-- the schedule a (regenerated) `Spec` record carries -/
 def scheduleOf (s : Spec) : Schedule :=
@@ -125,6 +126,62 @@ the header's root as block root, the signature and the digest it was given;
 every field back: the composition is the identity on (slot, proposer, parent root, state root, body,
 signature). (That the header's root equals the block's root is the SSZ fact of C05.) -/
 theorem envelope_roundtrip : ∀ f ∈ Fork.all.take 6, roundTripOk f.name = true := by
+  decide +kernel
+
+/-! ## Envelope signature check -/
+
+/-- model of `BeaconBlockEnvelope.VerifySignature`: the version comes from the regenerated `ForkVersion`
+of the envelope's slot, then `VerifySignatureVersioned` (`Zrnt.Config.verifyEnvelopeVersioned`) -/
+def verifyEnvelope (H : ByteArray → ByteArray) (bls : ByteArray → Bool) (spec : Spec) (slot : UInt64)
+    (gvr : ByteArray) (envProposer proposer : UInt64) (envDigest blockRoot : ByteArray) : Res Bool :=
+  match ForkVersion spec slot with
+  | .ok v => .ok (verifyEnvelopeVersioned H bls v gvr envProposer proposer envDigest blockRoot)
+  | .err => .err | .panic => .panic | .outOfFuel => .outOfFuel
+
+/-- `compute_domain` separates (fork version, genesis validators root) pairs: equal domains come from equal
+pairs or exhibit a collision of `H` on the 28 bytes the domain keeps (the witness is explicit). -/
+theorem domain_separation (H : ByteArray → ByteArray) (dt : ByteArray) (v v' : UInt32) (g g' : ByteArray)
+    (h : computeDomain H dt v g = computeDomain H dt v' g') :
+    (v = v' ∧ g = g') ∨
+    (forkDataInput v g ≠ forkDataInput v' g' ∧
+      (H (forkDataInput v g)).extract 0 28 = (H (forkDataInput v' g')).extract 0 28) :=
+  Zrnt.Proofs.Domain.domain_separation H dt v v' g g' h
+
+/-- `compute_signing_root` separates domains: equal signing roots of one object root come from equal
+domains or exhibit a collision of `H`. -/
+theorem signingRoot_separation (H : ByteArray → ByteArray) (r d d' : ByteArray)
+    (h : signingRoot H r d = signingRoot H r d') :
+    d = d' ∨ (r ++ d ≠ r ++ d' ∧ H (r ++ d) = H (r ++ d')) :=
+  Zrnt.Proofs.Domain.signingRoot_separation H r d d' h
+
+/-- **A block signed under the version its slot implies verifies through the envelope check; one signed
+under any other version (or for another chain) does not** — unless a hash collision is exhibited.
+For every monotone configuration and every slot: take an envelope for `slot` whose fork digest and proposer
+signature were made under `(v', g')` (ideal BLS: the signature verifies for exactly the message it was made
+over, with the expected proposer's key). `VerifySignature` against genesis validators root `g` never errs,
+accepts when `(v', g') = (version of forkAt(epoch(slot)), g)`, and if it accepts then that equality holds
+or a collision of `H` (on 28 bytes for the fork-data root, on 32 for the signing root) is exhibited. -/
+theorem envelope_signature_version (spec : Spec) (slot : UInt64)
+    (hspe : spec.SLOTS_PER_EPOCH ≠ 0) (hmono : (scheduleOf spec).Monotone)
+    (H : ByteArray → ByteArray) (v' : UInt32) (g g' root : ByteArray) (p : UInt64) :
+    let v := versionAt (scheduleOf spec) (slot.toNat / spec.SLOTS_PER_EPOCH.toNat)
+    let signed := signingRoot H root (computeDomain H DOMAIN_BEACON_PROPOSER v' g')
+    ∃ accept, verifyEnvelope H (fun m => decide (m = signed)) spec slot g p p (forkDigest H v' g') root = .ok accept ∧
+      ((v = v' ∧ g = g') → accept = true) ∧
+      (accept = true → (v = v' ∧ g = g') ∨ Collision28 H ∨ Collision H) := by
+  intro v signed
+  refine ⟨_, ?_, verifyVersioned_iff H v v' g g' root p⟩
+  simp only [verifyEnvelope, forkVersion_eq_forkAt spec slot hspe hmono]
+  rfl
+
+/-- non-vacuity: with the identity as `H` (collision-free), the mainnet-like example schedule accepts the
+Capella-signed envelope at a Capella slot and refuses a Bellatrix-signed one -/
+example :
+    let g : ByteArray := zeros 32
+    let root : ByteArray := zeros 32
+    let signedUnder (v : UInt32) := signingRoot id root (computeDomain id DOMAIN_BEACON_PROPOSER v g)
+    verifyEnvelope id (fun m => decide (m = signedUnder 0xa3)) exampleSpec 47 g 7 7 (forkDigest id 0xa3 g) root = .ok true ∧
+    verifyEnvelope id (fun m => decide (m = signedUnder 0xa2)) exampleSpec 47 g 7 7 (forkDigest id 0xa2 g) root = .ok false := by
   decide +kernel
 
 /-! ## `UpgradeMaybe` -/
